@@ -1,13 +1,20 @@
 """C17 state commitments bind content.
 
-Part 1 (state trie): TrieKV.tla - TLC checks that the transcribed insert/delete of store/trie keep the node
-structure canonical (a function of the content), that reads return the last write and that different contents
-have different structures, on every reachable state; every transition of that state graph (Put / Remove /
-Get / Hash / Commit to the node cache or to BeansDB / Reopen on the same or a fresh TrieDatabase or after
-re-opening the chain database / ProveAll, for the plain Trie and the SecureTrie and several cache limits) is
-replayed on the real trie over the BeansDB-backed TrieDatabase; TraceTrieKV.tla validates reads, node paths,
-proofs and - over ALL replayed paths of the run - that a content has one root and a root one content.
-Random long behaviours of a larger configuration (TLC -simulate) go through the same pipeline.
+Part 1 (state trie): TrieKV.tla - a set of trie HANDLES (Go objects) over one TrieDatabase, each with its own
+abstract content: the trie a behaviour starts with, copies (SecureTrie.Copy / struct copy), tries opened from the
+same or an older committed root, dropped handles.  TLC checks that the transcribed insert/delete of store/trie keep
+the node structure canonical (a function of the content), that reads return the last write, that different contents
+have different structures and that a step changes the content of at most the handle it names, on every reachable
+state; every transition of the state graphs (Put / Remove / Get / Hash / Commit to the node cache or to BeansDB /
+Reopen on the same or a fresh TrieDatabase or after re-opening the chain database / ProveAll on a chosen handle,
+Copy / Open / OpenOld / Close of handles, for the plain Trie and the SecureTrie and several cache limits; one graph
+with one handle and a large key universe, one with two handles interleaved) is replayed on the real tries over the
+BeansDB-backed TrieDatabase.  After EVERY call the adapter reads back every live handle and a snapshot (copy) of the
+handle operated on taken just before the call; TraceTrieKV.tla requires reads, root and node paths of each of them to
+be the function of that handle's own content (persistent structure: nothing done through one handle shows in another
+or in an older version), validates proofs and - over ALL replayed paths of the run - that a content has one root and
+a root one content.  Random long behaviours of larger configurations (TLC -simulate; one handle with older roots
+reopened, three handles) go through the same pipeline.
 
 Part 2 (Merkle tree): Merkle.tla - TLC checks root/proof invariants of the transcribed queue construction for
 all leaf lists up to N over a free hash; the real functions are evaluated on every one of those lists plus a
@@ -20,17 +27,26 @@ every kept result (negative control: building it in the caller's slice with Go's
 transition of that graph (all ordered pairs kept computation -> next computation) and seeded long histories run on
 the real code, and TraceMerkle.tla requires every result to be the pure function of the range as originally given
 and the caller's lists / kept trees, read back after every call, to be unchanged."""
-import json, os, re
+import concurrent.futures, json, os, re, subprocess, sys
 LEVEL = "model_checking"
 
 MANIFEST = dict(
     level="model_checking",
-    text="TLC checks on every reachable state of TrieKV.tla that the transcribed trie insert/delete keep the node structure equal to the "
+    text="TrieKV.tla: a set of trie handles (Go objects: the trie a behaviour starts with, SecureTrie.Copy / struct copies, tries opened from the "
+         "same or an older committed root, dropped handles) over one TrieDatabase, each with its own abstract content. TLC checks on every "
+         "reachable state that the transcribed trie insert/delete keep the node structure equal to the "
          "canonical trie of the content (keys with shared nibble prefixes incl. a key that is a strict prefix of others, short and >=32-byte "
-         "values), that lookups return the last write and that distinct contents have distinct structures; every transition of that state "
-         "graph and seeded TLC-simulated long behaviours are replayed on the real Trie / SecureTrie over the BeansDB-backed TrieDatabase "
+         "values), that lookups return the last write, that distinct contents have distinct structures and that a step changes the content of "
+         "at most the handle it names. TrieKVHeap.tla (memory-shaped: handles are root pointers into one heap of shared nodes, insert/delete "
+         "transcribed with their allocation behaviour, every sharing pattern of the garbage-collected heap): TLC checks HandlesIndependent - the "
+         "tree of every handle is the canonical trie of its own content whatever is done through the others (negative controls: a full node "
+         "edited in place by delete / by insert). Every transition of the state graphs (one handle with a large key universe; two handles "
+         "interleaved) and seeded TLC-simulated long behaviours (one handle with older roots; three handles) are replayed on the real "
+         "Trie / SecureTrie over the BeansDB-backed TrieDatabase "
          "(commits to the node cache and to disk, cache limits 0/1/2/120, reopen by root on the same / a fresh TrieDatabase / after re-opening "
-         "the database directory) and TLC validates the recorded real results: reads, node paths, proofs (genuine verifies, manipulated node "
+         "the database directory). After every call the adapter reads back EVERY live handle and a snapshot (copy) of the handle operated on "
+         "taken just before the call; TLC validates the recorded real results: reads, root and node paths of each of them are those of that "
+         "handle's own content (the snapshot: of the content before the call), proofs (genuine verifies, manipulated node "
          "sets never yield another value) and, across all replayed paths, one root per content and one content per root. Merkle.tla: TLC checks "
          "node count, proofs verify for every position, altered leaves fail, root binds the ordered list for all lists up to N over a free hash; "
          "the real merkle functions are evaluated on all those lists and a seeded grid (<=40 leaves, repeated leaves) and validated by TLC over "
@@ -40,13 +56,15 @@ MANIFEST = dict(
          "on the real merkle.New/Root/HashNodes/FindSiblingNodes/Verify and Transactions/ChangeLogSlice/DeputyNodes.MerkleRootSha over "
          "slices of shared storage with cap > len; TLC validates each result against the list as originally given and that the caller's "
          "lists and kept trees, read back after every call, are unchanged.",
-    note="The adapter observes roots/reads/node paths through an independent copy of the trie object, so the trie under test is only "
-         "touched by the spec's actions (Get and Hash are actions of their own). Trie.Prove is commented out in /repo; proofs are the nodes the "
+    note="The adapter observes roots/reads/node paths through an independent copy of the trie object, so the tries under test are only "
+         "touched by the spec's actions (Get and Hash are actions of their own); the copies are the project's own copy semantics (SecureTrie.Copy, "
+         "struct copy of a Trie as NewSecure does). A root that the real code committed and cannot open again is recorded as a real-code "
+         "failure (engine.Realf). Trie.Prove is commented out in /repo; proofs are the nodes the "
          "real VerifyProof walks, served by the TrieDatabase, re-keyed by their own Keccak256 as a light client would. The free hash of the design "
          "model assumes Keccak256 is collision free and that a Merkle leaf is never the hash of a 64-byte string (an inner node presented as "
          "a leaf is accepted by FindSiblingNodes/Verify; not demanded otherwise by the property). TrieDatabase.Reference/Dereference garbage "
          "collection is not exercised (unused by the project).",
-    technique="TLA+ model checking (TrieKV.tla, Merkle.tla, MerkleHist.tla) + replay of the full TLC state graphs and of TLC-simulated behaviours on the real "
+    technique="TLA+ model checking (TrieKV.tla, TrieKVHeap.tla, Merkle.tla, MerkleHist.tla) + replay of the full TLC state graphs and of TLC-simulated behaviours on the real "
               "code + TLC trace validation (TraceTrieKV.tla, TraceMerkle.tla)")
 
 
@@ -54,59 +72,139 @@ def Broken(msg):
     return __import__("vlib").Broken(msg)
 
 
+def _digest_one(f):
+    """rootobs lines (distinct) of one trace file"""
+    seen, kind, keys = set(), None, None
+    for ln in open(f):
+        e = json.loads(ln)
+        if e["ev"] == "reset":
+            kind, keys = e["kind"], e["keys"]
+        for o in e.get("obs", []) + ([e["pre"]] if "pre" in e else []):
+            seen.add(json.dumps(dict(ev="rootobs", beh=0, step=0, kind=kind, keys=keys, reads=o["reads"], root=o["root"]), sort_keys=True))
+    return seen
+
+
 def digest(files, out):
-    """Restate the <<kind, keys, reads, root>> observations of (accepted) trace files as rootobs lines, once each."""
+    """Restate the <<kind, keys, reads, root>> observations (every live handle and the snapshot of every event) of
+    (accepted) trace files as rootobs lines, once each.  One python process per file (this file run as a script)."""
+    def one(f):
+        r = subprocess.run([sys.executable, os.path.abspath(__file__), "--digest", f], capture_output=True, text=True)
+        if r.returncode != 0:
+            raise Broken("digest of %s failed: %s" % (f, r.stderr[-500:]))
+        return set(r.stdout.splitlines())
     seen = set()
+    with concurrent.futures.ThreadPoolExecutor(8) as ex:
+        for s in ex.map(one, files):
+            seen |= s
     with open(out, "w") as fh:
-        for f in files:
-            kind = keys = None
-            for ln in open(f):
-                e = json.loads(ln)
-                if e["ev"] == "reset":
-                    kind, keys = e["kind"], e["keys"]
-                k = (kind, tuple(keys), tuple(e["reads"]), e["root"])
-                if k not in seen:
-                    seen.add(k)
-                    fh.write(json.dumps(dict(ev="rootobs", beh=0, step=0, kind=kind, keys=keys, reads=e["reads"], root=e["root"])) + "\n")
+        for ln in sorted(seen):
+            fh.write(ln + "\n")
     return len(seen)
 
 
-def validate_trie(ctx, files, what):
-    """One TLC run when the trace is small enough, otherwise chunks (bounded memory) + one run over the chunks' root observations."""
-    lines = sum(1 for f in files for _ in open(f))
-    limit = int(os.environ.get("VERIF_C17_MAXLINES", "250000"))      # one TLC process holds the whole trace in memory
-    if lines <= limit:
-        return ctx.validate("TraceTrieKV", "TraceTrieKV.cfg", files, what=what, timeout=3000)
-    chunks, cur, n = [], [], 0
-    for f in files:
-        k = sum(1 for _ in open(f))
-        if cur and n + k > limit * 5 // 8:
-            chunks.append(cur)
-            cur, n = [], 0
-        cur.append(f)
-        n += k
-    if cur:
-        chunks.append(cur)
-    ok = True
-    for i, ch in enumerate(chunks):
-        ok = ctx.validate("TraceTrieKV", "TraceTrieKV.cfg", ch, what="%s, chunk %d/%d" % (what, i + 1, len(chunks)), timeout=3000) and ok
-    if not ok:
-        return False
+def validate_trie(ctx, files, what, also=()):
+    """The trace is validated in chunks by several TLC processes at once (TLC reads a trace single-threaded, ~4 MB/s,
+    and holds it in memory), each on its own copy of the trace module; one more run over the root observations of
+    all chunks makes the root rule (one root per content, one content per root) span the whole run.
+    also: further validations (callables returning accepted, behaviours) to run at the same time.
+    Returns (trie traces accepted, [results of also])."""
+    slots = int(os.environ.get("VERIF_C17_SLOTS", "5" if ctx.quick() else "6"))
+    size = {f: os.path.getsize(f) for f in files}
+    cap = int(os.environ.get("VERIF_C17_MAXBYTES", str(26 << 20)))                 # bounded memory per TLC process (fits 2.5 GB of heap)
+    nbins = max(1, min(len(files), max(slots, -(-sum(size.values()) // cap))))
+    bins = [[0, []] for _ in range(nbins)]
+    for f in sorted(files, key=lambda f: (-size[f], f)):                           # largest first into the emptiest bin
+        b = min(bins, key=lambda b: b[0])
+        b[0] += size[f]
+        b[1].append(f)
+    chunks = [b[1] for b in sorted(bins, key=lambda b: -b[0]) if b[1]]
+    src = open(os.path.join(ctx.specdir, "TraceTrieKV.tla")).read()
+    for i in range(slots):
+        with open(os.path.join(ctx.specdir, "TraceTrieKV_%d.tla" % i), "w") as fh:
+            fh.write(src.replace("---- MODULE TraceTrieKV ----", "---- MODULE TraceTrieKV_%d ----" % i, 1))
+    free = list(range(slots))
+    tlc = ctx.tlc
+
+    def small_heap(module, *a, **kw):           # several validators at once on a shared machine: keep each of them small
+        if module.startswith("TraceTrieKV_"):
+            kw["heap"] = os.environ.get("VERIF_C17_HEAP", "2500m")
+        return tlc(module, *a, **kw)
+    ctx.tlc = small_heap
+
+    def one(ic):
+        i, ch = ic
+        slot = free.pop()
+        try:
+            # behaviours are counted below, in one thread
+            return ctx.validate("TraceTrieKV_%d" % slot, "TraceTrieKV.cfg", ch, what="%s, chunk %d/%d" % (what, i + 1, len(chunks)),
+                                timeout=3000, count_behaviours=False)
+        finally:
+            free.append(slot)
+
+    # the root observations of all chunks, once each (validated beside the chunks)
     dg = ctx.path("traces", "rootobs.ndjson")
-    n = digest(files, dg)
-    ctx.extra["root_observations_validated_across_chunks"] = n
-    return ctx.validate("TraceTrieKV", "TraceTrieKV.cfg", [dg], what="root observations of all chunks", timeout=3000, count_behaviours=False)
+    ctx.extra["root_observations_validated_across_chunks"] = digest(files, dg)
+
+    def roots():
+        return ctx.validate("TraceTrieKV", "TraceTrieKV.cfg", [dg], what="root observations of all chunks", timeout=3000, count_behaviours=False)
+
+    with concurrent.futures.ThreadPoolExecutor(1 + len(also)) as ex2, concurrent.futures.ThreadPoolExecutor(slots) as ex:
+        extra = [ex2.submit(f) for f in also]
+        rts = ex2.submit(roots)
+        oks = list(ex.map(one, enumerate(chunks)))          # at most `slots` at a time: one module copy each
+        others = [f.result() for f in extra]
+        ok = rts.result() and all(oks)
+    ctx.tlc = tlc
+    for acc, nbeh in others:
+        if acc:
+            ctx.cov["traces_validated_against_impl"] += nbeh
+    if ok:
+        ctx.cov["traces_validated_against_impl"] += sum(1 for f in files for ln in open(f) if '"ev":"reset"' in ln)
+    return ok, [acc for acc, _ in others]
+
+
+def heap_design(ctx, quick):
+    """Design side, memory-shaped (TrieKVHeap.tla): handles are root pointers into one heap of shared nodes, insert / delete
+    transcribed with their allocation behaviour; all sharing patterns (garbage-collected, renumbered heap).  Runs beside the
+    replays; returns what run() records (the counters are added there, in one thread)."""
+    runs = []
+    for cfg in ["MCTrieKVHeap.cfg"] + ([] if quick else ["MCTrieKVHeap_h3.cfg", "MCTrieKVHeap_v2.cfg"]):
+        r = ctx.tlc("MCTrieKVHeap", cfg, timeout=1800, workers=4)
+        runs.append(dict(module="MCTrieKVHeap", cfg=cfg, generated=r["generated"], distinct=r["distinct"], wall_s=round(r["wall"], 1)))
+    if not quick:
+        # design only: the bookkeeping of TrieKV.tla (which committed content can be opened from where) with three handles,
+        # older roots and all reopen modes - the configuration the simulated behaviours are drawn from, on a small key universe
+        # (a copy of the module under another name: TLC of MCTrieKV itself runs in the main thread meanwhile)
+        with open(os.path.join(ctx.specdir, "MCTrieKV.tla")) as src, open(os.path.join(ctx.specdir, "MCTrieKVBook.tla"), "w") as dst:
+            dst.write(src.read().replace("---- MODULE MCTrieKV ----", "---- MODULE MCTrieKVBook ----", 1))
+        r = ctx.tlc("MCTrieKVBook", "MCTrieKV_hbook.cfg", timeout=1800, workers=4)
+        runs.append(dict(module="MCTrieKV", cfg="MCTrieKV_hbook.cfg", generated=r["generated"], distinct=r["distinct"], wall_s=round(r["wall"], 1)))
+    # negative controls: a full node edited where it is (delete: the seeded class; insert) breaks HandlesIndependent
+    negs = {}
+    for cfg in ("MCTrieKVHeap_negdel.cfg", "MCTrieKVHeap_negins.cfg"):
+        r = ctx.tlc("MCTrieKVHeap", cfg, timeout=600, expect_ok=False, workers=4)
+        negs[cfg] = r["inv"]
+        if r["inv"] != "HandlesIndependent":
+            raise Broken("negative control %s: editing a shared full node in place should violate HandlesIndependent, got %s" % (cfg, r["inv"]))
+    # not vacuous: two live handles with different contents that share a node are reachable
+    r = ctx.tlc("MCTrieKVHeap", "MCTrieKVHeap_share.cfg", timeout=600, expect_ok=False, workers=4)
+    if r["inv"] != "SharingOccurs":
+        raise Broken("TrieKVHeap: no reachable state in which two handles with different contents share a node (%s)" % r["inv"])
+    return runs, negs
 
 
 def run(ctx):
     os.environ.setdefault("VERIF_TLC_HEAP", "4g")      # every TLC run of this check fits (traces are validated in chunks)
     ctx.build()
     quick = ctx.quick()
+    pool = concurrent.futures.ThreadPoolExecutor(1)
+    heap = pool.submit(heap_design, ctx, quick)
     # ------------------------------------------------------------------ part 1: state trie
     cfg = "MCTrieKV_quick.cfg" if quick else "MCTrieKV_thorough.cfg"
     dot = ctx.path("triekv.dot")
     r = ctx.tlc_exhaustive("MCTrieKV", cfg, timeout=1200, dump=dot, coverage=not quick)
-    if not quick and r.get("zero_cov"):
+    # (one handle: Copy / Open / OpenOld / Close and their disjuncts of Next are not enabled; they are in the graph of two handles below)
+    if not quick and set(r.get("zero_cov") or []) - {"Copy", "Open", "OpenOld", "Close", "Next"}:
         raise Broken("TrieKV actions never taken: %s" % r["zero_cov"])
     # negative control: without the short-node merging / full-node collapsing of delete the structure is history dependent
     neg = ctx.tlc("MCTrieKV", "MCTrieKV_neg.cfg", timeout=300, expect_ok=False)
@@ -114,6 +212,16 @@ def run(ctx):
     if neg["inv"] not in ("InsertKeepsCanonical", "DeleteKeepsCanonical"):
         raise Broken("negative control: delete without normalisation should violate Insert/DeleteKeepsCanonical, got %s" % neg["inv"])
     files, summ = ctx.replay("triekv", graph=dot, shards=16, maxlen=300, timeout=1800)
+    # several handles alive at once (copies, second tries from the same committed root), operations interleaved between them
+    thcfg = "MCTrieKV_hquick.cfg" if quick else "MCTrieKV_hthorough.cfg"
+    thdot = ctx.path("triekv-handles.dot")
+    r = ctx.tlc_exhaustive("MCTrieKV", thcfg, timeout=1200, dump=thdot, coverage=not quick)
+    if not quick and set(r.get("zero_cov") or []) - {"OpenOld", "Next"}:                # MaxOld = 0 in the graph: OpenOld is in the simulated behaviours
+        raise Broken("TrieKV actions never taken with two handles: %s" % r["zero_cov"])
+    thfiles, thsumm = ctx.replay("triekv", graph=thdot, shards=16, maxlen=300, name="triekv-handles", timeout=1800)
+    for need in ("Put", "Remove", "Get", "Hash", "Commit", "Reopen", "ProveAll", "Copy", "Open", "Close"):
+        if not thsumm["action_counts"].get(need):
+            raise Broken("replay with several handles never performed %s" % need)
     efiles = []
     if not quick:
         # edge universe: the empty key (strict prefix of every key), 1234, 1235, 12 with three value sizes
@@ -125,11 +233,13 @@ def run(ctx):
     nsim, depth = (300, 80) if quick else (1200, 100)
     sim = ctx.tlc_simulate("MCTrieKV", "MCTrieKV_sim.cfg", nsim, depth, "triekv", timeout=1200)
     sfiles, ssumm = ctx.replay("triekv", sim=sim, shards=16, name="triekv-sim", timeout=1800)
-    # one validation run over everything: the root history (content <-> root) spans all paths
-    ok = validate_trie(ctx, files + efiles + sfiles, "state-graph tour(s) + simulated behaviours")
-    ctx.extra["distinct_transitions_replayed"] = summ["graph_edges"] if ok else 0
-    ctx.extra["transitions_in_graph"] = summ["graph_edges"]
-    ctx.cov["samples"] = [x[:14] for x in summ["samples"][:2] + ssumm["samples"][:1]]
+    # ... and of three handles (copies of copies, older roots opened next to the trie that went on, all reopen modes)
+    hnsim, hdepth = (200, 80) if quick else (1500, 100)
+    hsim = ctx.tlc_simulate("MCTrieKV", "MCTrieKV_hsim.cfg", hnsim, hdepth, "triekv-h", timeout=1200)
+    hsfiles, hssumm = ctx.replay("triekv", sim=hsim, shards=16, name="triekv-handles-sim", timeout=1800)
+    for need in ("Copy", "Open", "OpenOld", "Close"):
+        if not hssumm["action_counts"].get(need):
+            raise Broken("simulated behaviours with several handles never performed %s" % need)
     for need in ("Put", "Remove", "Get", "Hash", "Commit", "Reopen", "ProveAll"):
         if not summ["action_counts"].get(need):
             raise Broken("replay never performed %s" % need)
@@ -160,17 +270,38 @@ def run(ctx):
     hdrv = ctx.path("traces", "merkle-hist.ndjson")
     hbehs, hsteps = (25, 60) if quick else (200, 80)
     ctx.drive("merkle-hist", ["-out", hdrv, "-seed", ctx.seed, "-behs", hbehs, "-steps", hsteps, "-maxlen", 24])
-    # one validation run: the run-wide root function (one root per ordered list, one list per root) spans lists, grid and histories
-    mok = ctx.validate("TraceMerkle", "TraceMerkle.cfg", mfiles + [grid] + hfiles + [hdrv],
-                       what="all leaf lists of the graph + seeded grid + histories over shared storage (graph tours + seeded)", timeout=1800)
+    hruns, hnegs = heap.result()
+    pool.shutdown()
+    for r in hruns:
+        ctx.cov["states"] += r["distinct"]
+        ctx.cov["transitions"] += r["generated"]
+        ctx.extra.setdefault("tlc_runs", []).append(r)
+        ctx.log("TLC %s/%s: %d generated, %d distinct, %.1fs (beside the replays)" % (r["module"], r["cfg"], r["generated"], r["distinct"], r["wall_s"]))
+    ctx.extra["negative_control_full_node_edited_in_place_violates"] = hnegs
+    # ------------------------------------------------------------------ validation of everything recorded, at the same time
+    # Merkle: one validation run: the run-wide root function (one root per ordered list, one list per root) spans lists, grid and histories
+    def merkle():
+        mtr = mfiles + [grid] + hfiles + [hdrv]
+        acc = ctx.validate("TraceMerkle", "TraceMerkle.cfg", mtr, count_behaviours=False, timeout=1800,
+                           what="all leaf lists of the graph + seeded grid + histories over shared storage (graph tours + seeded)")
+        return acc, sum(1 for f in mtr for ln in open(f) if '"ev":"reset"' in ln)
+    # tries: the root history (content <-> root) spans all paths of the run
+    ok, (mok,) = validate_trie(ctx, files + thfiles + efiles + sfiles + hsfiles, "state-graph tours + simulated behaviours", also=[merkle])
+    ctx.extra["distinct_transitions_replayed"] = summ["graph_edges"] if ok else 0
+    ctx.extra["transitions_in_graph"] = summ["graph_edges"]
+    ctx.extra["handles_transitions_in_graph"] = thsumm["graph_edges"]
+    ctx.extra["handles_transitions_replayed"] = thsumm["graph_edges"] if ok else 0
+    ctx.extra["handles_simulated"] = dict(behaviours=hnsim, depth=hdepth, handles=3) if ok else 0
     ctx.extra["merkle_lists_in_graph"] = msumm["graph_nodes"]
     ctx.extra["merkle_grid_rows"] = rows if mok else 0
     ctx.extra["merkle_history_transitions_in_graph"] = hsumm["graph_edges"]
     ctx.extra["merkle_history_transitions_replayed"] = hsumm["graph_edges"] if mok else 0
     ctx.extra["merkle_seeded_histories"] = dict(behaviours=hbehs, steps=hsteps, max_leaves=24, slots=3) if mok else 0
+    ctx.cov["samples"] = [x[:14] for x in summ["samples"][:1] + thsumm["samples"][:1] + hssumm["samples"][:1]]
     ctx.cov["samples"] += [x[:10] for x in msumm["samples"][:1]] + [x[:12] for x in hsumm["samples"][:1]]
     ctx.cov["exhaustive"] = True
     ctx.extra["bounds"] = dict(triekv_graph=open(ctx.specdir + "/" + cfg).read(), triekv_sim=open(ctx.specdir + "/MCTrieKV_sim.cfg").read(),
+                               triekv_handles_graph=open(ctx.specdir + "/" + thcfg).read(), triekv_handles_sim=open(ctx.specdir + "/MCTrieKV_hsim.cfg").read(),
                                merkle=open(ctx.specdir + "/" + mcfg).read(), merkle_histories=open(ctx.specdir + "/" + hcfg).read(),
                                sim_behaviours=nsim, sim_depth=depth)
     ctx.assumptions += [
@@ -180,4 +311,11 @@ def run(ctx):
         "Merkle leaves are 32-byte hashes that are not themselves hashes of two tree nodes",
         "Merkle histories: the caller only appends behind its list (existing positions are never rewritten by the caller) and a kept tree "
         "has been asked for its root before the caller goes on (New is lazy: it reads the leaf slice at the first Root/HashNodes)",
-        "one trie object per TrieDatabase at a time; TrieDatabase.Reference/Dereference are not called (as in the project)"]
+        "one TrieDatabase at a time (a new TrieDatabase or a re-opened database directory is the end of all other handles); up to three "
+        "trie objects on it; TrieDatabase.Reference/Dereference are not called (as in the project); handles are used from one goroutine "
+        "(Trie is documented as not safe for concurrent use)"]
+
+
+if __name__ == "__main__":
+    if len(sys.argv) == 3 and sys.argv[1] == "--digest":
+        sys.stdout.write("".join(ln + "\n" for ln in sorted(_digest_one(sys.argv[2]))))
